@@ -1003,11 +1003,18 @@ def s_pow(base, expo, _norewrite=False) -> Any:
         r = s_pow(b, nx, _norewrite=True)
         return r.reciprocal() if isinstance(r, SVal) else 1 / r
     real_res = b.is_real() and x.is_real() and _eng.current().implied(b > 0)
+    nonneg = False
+    if not real_res and b.npy and b.is_real() and x.is_real() and x.is_const() and x.nr > 0:
+        # a numpy float raised to a positive real power: nan for a negative base (numpy does not switch to complex numbers),
+        # a non-negative real otherwise
+        if bool(b < 0):
+            return _np.float64(math.nan)
+        real_res = nonneg = True
 
     def ax(res, bb, xx):
         _nonzero_result(res, bb)
         if real_res:
-            _eng.current().axiom(res.nr > 0)
+            _eng.current().axiom(res.nr >= 0 if nonneg else res.nr > 0)
         # (z ** (1/q)) ** q == z   (principal roots; sympy simplifies sqrt(z)**2 to z on its own)
         if xx.is_const() and xx.is_real() and xx.nr.numerator == 1 and 2 <= xx.nr.denominator <= 4:
             rq = res
